@@ -261,7 +261,10 @@ class ProblemKind(up.AnyBaseClass, metaclass=ProblemKindMeta):
         return False
 
     def __hash__(self) -> int:
-        return sum(map(hash, self._features))
+        # hash the same canonical feature set that __eq__ compares, so that
+        # equal kinds (that differ only in deprecated features) hash equally
+        valid_features = get_valid_features(self.version)
+        return sum(map(hash, self._features.intersection(valid_features)))
 
     def __le__(self, oth: object):
         if not isinstance(oth, ProblemKind):
